@@ -113,6 +113,13 @@ theorem C06_facts_defaultHeaders :
 theorem C06_facts_bodyVerbs : ∀ v : Verb, v.hasBody = Facts.restBodyVerbs.contains v.upper := by
   intro v; cases v <;> decide
 
+/-- per-method independence, anchored in the source: internal/restclient keeps no package-level
+    mutable state — its only package-level variable is the embedded template text — so nothing
+    cooked for one method or one type can reach the next (a memo table added at package level stops
+    this theorem from checking) -/
+theorem C06_facts_no_package_state :
+    Facts.restPkgVars = [("generator.go", "tmplTxt", "string")] := by decide
+
 /-- C06_headers over the regenerated table: the value under a key is the directive's last value for
     it, else the entry of the source's DefaultHeaders literal for the method's verb -/
 theorem C06_headers_facts (hs : List (String × String)) (v : Verb) (k : String) :
